@@ -85,7 +85,11 @@ Inductive case :=
            (out : option (list point))
 | CRandom (d : domain) (n : Z) (calls : list call) (cols : list (list Q)) (out : list point)
 | CPrior (d : domain) (ps : list prior) (n : Z) (calls : list call) (cols : list (list Q)) (out : list point)
-| CView (d : domain) (ps : list prior) (constrained : bool) (used_priors : bool).
+| CView (d : domain) (ps : list prior) (constrained : bool) (used_priors : bool)
+(* a whole request served by SPENextPoints.view (search = 0) or SPESearchNextPoints.view (search = 1 initialisation, 2 exploitation,
+   3 explore / resolve): the phase the view computed, the counts create_spe_suggestions saw, whether the estimator could be formed, and the
+   sampler that produced the suggestions (0 priors, 1 quasi-random, 2 the estimator) *)
+| CSpeView (ps : list prior) (constrained : bool) (search : nat) (init : bool) (obs open : Z) (formed : bool) (used : nat).
 
 Definition check (c : case) : bool :=
   match c with
@@ -116,4 +120,12 @@ Definition check (c : case) : bool :=
       opt_calls_eqb (calls_of n (prior_requests d ps)) calls && rows_eqb (quasi_random n cols) out
   | CView d ps constrained used =>
       Bool.eqb used (match view_path ps constrained with UsePriors => true | UseQuasi => false end)
+  | CSpeView ps constrained search init obs open formed used =>
+      let s := match search with
+               | 0%nat => spe_view_sampler ps constrained init obs open formed
+               | 1%nat => spe_search_view_sampler ps constrained SearchInit init obs open formed
+               | 2%nat => spe_search_view_sampler ps constrained SearchExploit init obs open formed
+               | _ => spe_search_view_sampler ps constrained SearchResolve init obs open formed
+               end in
+      Nat.eqb used (match s with SPriors => 0 | SQuasi => 1 | SEstimator => 2 end)
   end.
